@@ -11,7 +11,7 @@ from vcommon import *
 PROP = "C12"
 HERE = os.path.dirname(os.path.abspath(__file__))
 TZS = ["UTC", "Asia/Tokyo", "America/Los_Angeles", "Pacific/Kiritimati", "XYZ-14", "ABC+11:30", "Europe/London"]
-KNOBS = ["clock", "tz", "mtime", "heap", "pid", "tmpname", "stack", "envvars", "cwd", "fds", "perm", "ids", "stdin", "links", "proc"]
+KNOBS = ["clock", "tz", "mtime", "heap", "pid", "tmpname", "stack", "envvars", "cwd", "fds", "perm", "ids", "stdin", "links", "proc", "envfuzz", "preexist"]
 TIMEOUT = 10
 TIME_MACROS = re.compile(r"__DATE__|__TIME__|__TIMESTAMP__")
 
@@ -74,6 +74,8 @@ def gen_env(r):
             "stack": r.pick([r.range(0, 4000), r.range(0, 120000), r.range(60000, 250000)]),   # bytes of environment: moves the stack by up to 250 KB
             "stdin": [r.pick(["pipe", "file", "file"]), r.pick([0, 0, 1, 17, 4096, 70000])],
             "proc": [r.below(2), r.pick([0o022, 0o077, 0, 0o777])],   # SIGPIPE inherited as ignored; umask
+            "envfuzz": r.range(1, 1 << 30),    # answers to getenv() calls of the compiler itself (none in the unchanged tree)
+            "preexist": r.pick([0, 0, 1, 7, 5000, 400000]),   # bytes of old content in the output and dependency files before the run
             "links": r.below(3),   # how a header that duplicates another one exists: a copy, a hard link, a symbolic link
             "cwd": "cw" + "".join(r.pick("abcdefghij_") for _ in range(r.pick([1, 3, 8, 40, 120]))),
             "fds": r.pick([0, 0, 1, 3, 17]),
@@ -89,6 +91,7 @@ def env_vars(e, sdir, stats):
          "ENVSIM_SEED": str(e["heap"]), "ENVSIM_EPOCH": str(e["clock"][0]), "ENVSIM_TICK": str(e["clock"][1]), "TZ": e["tz"],
          "ENVSIM_PID": str(e["pid"]), "ENVSIM_TMPTAG": e["tmpname"], "ENVSIM_PAD": "x" * min(e["stack"], 125000), "ENVSIM_PAD2": "y" * max(0, e["stack"] - 125000)}
     v["ENVSIM_IDS"] = e.get("ids", "0:0:0")
+    v["ENVSIM_GETENV"] = str(e.get("envfuzz", 0))
     ev2 = e.get("envvars") or []
     if len(ev2) > 5 and ev2[5]:
         v.update({"TMPDIR": "/tmp", "PWD": "/nonexistent/pwd", "CPATH": "/nonexistent/cpath", "C_INCLUDE_PATH": "/nonexistent/cinc", "SOURCE_DATE_EPOCH": "86400"})
@@ -382,6 +385,92 @@ def gen_typeexpr_file(r):
     return "\n".join(out) + "\nint main(void) { return 0; }\n"
 
 
+ABI_SCALARS = ["char", "signed char", "unsigned char", "short", "unsigned short", "int", "unsigned", "long", "unsigned long", "float", "double", "long double",
+               "_Bool", "char *", "int *"]
+
+
+def gen_abi_file(r):
+    """valid programs that pass and return every kind of object by value: structs and unions of 1..40 bytes with integer,
+    floating, long double, array, nested and bit-field members; up to 12 parameters (so some travel on the stack);
+    variadic callees. Which registers, which stack slots, which copies -- the calling-convention code of the compiler is
+    what the self-compiled compiler must get right about itself."""
+    out = ["#include <stdarg.h>", "long sink;"]
+    structs = []
+    for i in range(r.range(1, 5)):
+        kw = "union" if r.below(6) == 0 else "struct"
+        members = []
+        for j in range(r.range(1, 5)):
+            k = r.below(10)
+            if k == 6:
+                members.append("char a%d[%d];" % (j, r.pick([1, 2, 3, 5, 7, 8, 9, 15, 16, 17, 24, 31, 33])))
+            elif k == 7 and structs:
+                members.append("%s n%d;" % (r.pick(structs), j))
+            elif k == 8:
+                bt = r.pick(["int", "unsigned", "long", "_Bool", "char", "unsigned char", "short"])
+                w = {"int": 32, "unsigned": 32, "long": 64, "_Bool": 1, "char": 8, "unsigned char": 8, "short": 16}[bt]
+                members.append("%s b%d : %d;" % (bt, j, r.range(1, w)))
+            elif k == 9:
+                members.append("%s f%d[%d];" % (r.pick(["float", "double", "short", "int"]), j, r.pick([1, 2, 3, 4])))
+            else:
+                members.append("%s m%d;" % (r.pick(ABI_SCALARS), j))
+        name = "%s A%d" % (kw, i)
+        out.append("%s { %s };" % (name, " ".join(members)))
+        out.append("%s g%d;" % (name, i))
+        structs.append(name)
+    types = ABI_SCALARS + structs * 3
+
+    def lit(t):
+        if t in structs:
+            return "g%d" % structs.index(t)
+        if "*" in t:
+            return "(%s)0" % t
+        return "(%s)%d" % (t, r.below(100))
+    funcs = []
+    for i in range(r.range(1, 4)):
+        ret = r.pick(types + ["void"])
+        ps = [r.pick(types) for _ in range(r.pick([0, 1, 2, 3, 5, 7, 9, 12]))]
+        variadic = bool(ps) and r.below(5) == 0
+        plist = ", ".join("%s p%d" % (t, k) for k, t in enumerate(ps)) or "void"
+        body = []
+        if variadic:
+            plist += ", ..."
+            vt = r.pick(["int", "double", "long", "char *"] + structs)
+            body.append("va_list ap; va_start(ap, p%d); %s v = va_arg(ap, %s); va_end(ap); sink += sizeof v;" % (len(ps) - 1, vt, vt))
+        for k, t in enumerate(ps):
+            if t in structs:
+                body.append("g%d = p%d;" % (structs.index(t), k))
+            elif "*" in t:
+                body.append("sink += p%d != 0;" % k)
+            else:
+                body.append("sink += (long)p%d;" % k)
+        same = [k for k, t in enumerate(ps) if t == ret]
+        if ret == "void":
+            body.append("return;")
+        elif same and r.below(2):
+            body.append("return p%d;" % r.pick(same))
+        else:
+            body.append("return %s;" % lit(ret))
+        out.append("%s f%d(%s) { %s }" % (ret, i, plist, " ".join(body)))
+        funcs.append((i, ret, ps, variadic))
+    main = []
+    for i, ret, ps, variadic in funcs:
+        for _ in range(r.range(1, 2)):
+            args = [lit(t) for t in ps]
+            if variadic:
+                args += [lit(r.pick(["int", "double", "long", "char *"] + structs)) for _ in range(r.range(1, 3))]
+            call = "f%d(%s)" % (i, ", ".join(args))
+            if ret in structs:
+                main.append("g%d = %s;" % (structs.index(ret), call))
+            elif ret == "void":
+                main.append("%s;" % call)
+            elif "*" in ret:
+                main.append("sink += %s != 0;" % call)
+            else:
+                main.append("sink += (long)%s;" % call)
+    out.append("int main(void) { %s return (int)sink; }" % " ".join(main))
+    return "\n".join(out) + "\n"
+
+
 def list_inputs(src):
     own = [os.path.join(src, f) for f in sorted(os.listdir(src)) if f.endswith(".c")]
     tests = [os.path.join(src, "test", f) for f in sorted(os.listdir(os.path.join(src, "test"))) if f.endswith(".c")]
@@ -399,10 +488,13 @@ OPTION_SETS = [["-xc-stdin", "-S"], ["-xc-stdin", "-E"], ["-xc-stdin", "-c"], ["
 
 def gen_case(seed, src, own, tests, avail=None):
     r = Rng(seed)
-    x = r.below(34)
+    x = r.below(36)
     gen_text = None
     aux = None
-    if x >= 32:
+    if x >= 34:
+        path, mutated = tests[0], False
+        gen_text = gen_abi_file(r)
+    elif x >= 32:
         path, mutated = tests[0], False
         gen_text, aux = gen_proj(r)
     elif x >= 30:
@@ -539,6 +631,9 @@ def run_replica(sdir, reps, stage, e, infile, opts, src, wdir, stats, timeout=No
     for f in (out, dep):
         if os.path.exists(f):
             os.unlink(f)
+        if e.get("preexist"):
+            with open(f, "wb") as fh:     # old content, longer or shorter than what will be written: it must not survive
+                fh.write((b"OLD CONTENT %d\n" % e["preexist"]) * (e["preexist"] // 14 + 1))
     from_stdin = "-xc-stdin" in opts
     opts = [o for o in opts if o != "-xc-stdin"]
     argv = ["setarch", "x86_64", "-R", "./chibicc"] + opts + ["-I" + os.path.join(src, "test"), "-I" + os.path.dirname(infile)] + (["-xc", "-"] if from_stdin else [infile])
@@ -611,10 +706,15 @@ def run_replica(sdir, reps, stage, e, infile, opts, src, wdir, stats, timeout=No
     # the assembler names its input, a temporary with a random name, in its own messages: not compiler output
     err = re.sub(rb"/tmp/chibicc-[A-Za-z0-9]{6}", b"/tmp/chibicc-TEMP", p.stderr)
     res = {"status": p.returncode, "stdout": p.stdout, "stderr": err, "out": None, "dep": None}
+    old = (b"OLD CONTENT %d\n" % e["preexist"]) * (e["preexist"] // 14 + 1) if e.get("preexist") else None
     if os.path.exists(out):
         res["out"] = open(out, "rb").read()
+        if res["out"] == old:
+            res["out"] = None       # left alone: the same as not having been there
     if os.path.exists(dep):
         res["dep"] = open(dep, "rb").read()
+        if res["dep"] == old:
+            res["dep"] = None
     return res
 
 
